@@ -26,7 +26,7 @@ def comment_line(rng, cm):
     return ind + c + text
 
 def gen(rng, tier):
-    n = 1500 if tier == "quick" else 20000
+    n = 1500 if tier == "quick" else 60000
     asts = []
     for _ in range(n):
         dl = rng.choice(grammar.DELIMS); cm = rng.choice(grammar.COMMENTS)
